@@ -24,7 +24,7 @@ class FloorSim:
     properties = ['C12']
 
     def budget(self, prop, tier):
-        return {'quick': {'runs': 2500, 'seconds': 50}, 'thorough': {'runs': 100000, 'seconds': 600}}[tier]
+        return {'quick': {'runs': 4500, 'seconds': 50}, 'thorough': {'runs': 100000, 'seconds': 600}}[tier]
 
     def rule(self, prop):
         return ('plans drawn from VERIF_SEED: world (every convention) with 1-3 depth coordinates (positive up/down x '
